@@ -6,6 +6,7 @@ import (
 	"os"
 	"strings"
 	"sync"
+	"sync/atomic"
 	"time"
 
 	"verifharness/tr"
@@ -288,12 +289,12 @@ func RunScenario(sc Scenario, seed int64) *rec {
 	t.Hit("scenarios")
 	t.Add("samples", s.nsamp)
 	for _, p := range s.Peers {
-		t.Add("msgs.getheaders", int(p.GotGetHeaders))
-		t.Add("msgs.getcfheaders", int(p.GotGetCFHeaders))
-		t.Add("msgs.getcfcheckpt", int(p.GotGetCFCheckpt))
-		t.Add("msgs.getcfilters", int(p.GotGetCFilters))
-		t.Add("msgs.getdata", int(p.GotGetData))
-		t.Add("sessions", int(p.Sessions))
+		t.Add("msgs.getheaders", int(atomic.LoadInt32(&p.GotGetHeaders)))
+		t.Add("msgs.getcfheaders", int(atomic.LoadInt32(&p.GotGetCFHeaders)))
+		t.Add("msgs.getcfcheckpt", int(atomic.LoadInt32(&p.GotGetCFCheckpt)))
+		t.Add("msgs.getcfilters", int(atomic.LoadInt32(&p.GotGetCFilters)))
+		t.Add("msgs.getdata", int(atomic.LoadInt32(&p.GotGetData)))
+		t.Add("sessions", int(atomic.LoadInt32(&p.Sessions)))
 	}
 	t.Line("# scenario %s took %d ms, stop %d ms, %d samples", sc.Name, time.Since(t0).Milliseconds(), d.Milliseconds(), s.nsamp)
 	return t
